@@ -49,6 +49,10 @@ func (t *MailboxTracker) queueUpdate(update *trackerUpdate, source *SessionTrack
 		panic(fmt.Errorf("imapserver: cannot decrease mailbox number of messages from %v to %v", t.numMessages, update.numMessages))
 	}
 
+	if update.numMessages != 0 {
+		update.prevNumMessages = t.numMessages
+	}
+
 	for st := range t.sessions {
 		if source != nil && st == source {
 			continue
@@ -102,6 +106,10 @@ type trackerUpdate struct {
 	numMessages  uint32
 	mailboxFlags []imap.Flag
 	fetch        *trackerUpdateFetch
+
+	// prevNumMessages is the number of messages in the mailbox before a
+	// numMessages update
+	prevNumMessages uint32
 }
 
 type trackerUpdateFetch struct {
@@ -272,8 +280,8 @@ func (t *SessionTracker) EncodeSeqNum(seqNum uint32) uint32 {
 
 	for i := len(t.queue) - 1; i >= 0; i-- {
 		update := t.queue[i]
-		// TODO: this doesn't handle increments > 1
-		if update.numMessages != 0 && seqNum == update.numMessages {
+		// Messages added by this update aren't known by the client yet
+		if update.numMessages != 0 && seqNum > update.prevNumMessages {
 			return 0
 		}
 		if update.expunge != 0 && seqNum >= update.expunge {
